@@ -199,3 +199,23 @@ Check insert_while_deferring_is_held :
         /\ t_deferring (fst (t_insert t f x p i b)) f = true
         /\ (b = false -> holds_prefix (fst (t_insert t f x p i b)) f x = true)).
 Print Assumptions insert_while_deferring_is_held.
+
+(* (9) Finding C11-2 (repaired): while a family is deferring, a withdrawal and a
+   peer drop change the table but hand nothing to the distribution layer, and
+   leave the flag set. *)
+Theorem mutators_quiet_while_deferring :
+  forall (t : table) (f : fam) (x p i : N),
+    t_deferring t f = true ->
+    snd (t_remove t f x p i) = RNoChange
+    /\ snd (t_drop t f p) = RChanges []
+    /\ t_deferring (fst (t_remove t f x p i)) f = true
+    /\ t_deferring (fst (t_drop t f p)) f = true.
+Proof. exact C11_mutators_quiet_while_deferring. Qed.
+Check mutators_quiet_while_deferring :
+  forall (t : table) (f : fam) (x p i : N),
+    t_deferring t f = true ->
+    snd (t_remove t f x p i) = RNoChange
+    /\ snd (t_drop t f p) = RChanges []
+    /\ t_deferring (fst (t_remove t f x p i)) f = true
+    /\ t_deferring (fst (t_drop t f p)) f = true.
+Print Assumptions mutators_quiet_while_deferring.
